@@ -73,7 +73,9 @@ class Seq:
             hist_before = sb.history() or []
             if c[0] == "rename":
                 s, r, feeds, _, _ = OPS[c[1]]
-                args = ["-y", "rename", s, r]
+                # some renames run at an unrestricted level: ignore files and binary detection are switched off there, renamify's
+                # own state directory stays out of scope at every level (its history holds the very strings being renamed)
+                args = [["-y"], ["-y", "-uu"], ["-y", "-u"], ["-y", "-uuu"]][c[1] % 4] + ["rename", s, r]
                 mc = ["rename", [c[1], feeds]]
             else:
                 ref = c[1]
